@@ -439,6 +439,7 @@ theorem Inv_step {s : Sys} (h : Inv s) {a : Act} (ha : Allowed s a) : Inv (step 
   | finishJob n => exact Inv_finish h n
   | markRejected n => exact Inv_finish h n
   | removeJob n => exact Inv_removeJob h n
+  | editStartAfter n t => exact Inv_editStartAfter h n t
   | setMaxConc n m => exact Inv_setMaxConc h n m
   | tick d => exact Inv_tick h d
   | deliverJob => exact Inv_deliverJob h
